@@ -104,15 +104,15 @@ Fixpoint cleanup (ps : list (list N)) : list (list N) :=
   | s :: rest =>
       let s' :=
         match s with
-        | 92 :: _ =>
-            if ends_with_space s then
+        | c :: _ =>
+            if (c =? 92) && ends_with_space s then
               match rest with
               | [] => pop s
               | (n :: _) :: _ => if negb (is_hex n) && negb (n =? 9) then pop s else s
               | [] :: _ => s
               end
             else s
-        | _ => s
+        | [] => s
         end in
       s' :: cleanup rest
   end.
